@@ -17,6 +17,8 @@ VECTORS = {
                     mods=["a", "b", "c"], hasB=["c"], flavour={"a": "imports", "b": "none", "c": "ok"}, imp="c"),
     "removes": dict(Mod="ModAB", HasB="ModAB", Flavour="FlavRemoves", ImpTarget='"b"',
                     mods=["a", "b"], hasB=["a", "b"], flavour={"a": "removes", "b": "ok"}, imp="b"),
+    "alias": dict(Mod="ModAB", HasB="ModAB", Flavour="FlavAlias", ImpTarget='"b"',
+                  mods=["a", "b"], hasB=["a", "b"], flavour={"a": "none", "b": "none"}, imp="b", alias=True),
     "mix3": dict(Mod="ModABC", HasB="ModBC", Flavour="FlavMix3", ImpTarget='"c"',
                  mods=["a", "b", "c"], hasB=["b", "c"], flavour={"a": "ok", "b": "raises", "c": "none"}, imp="c"),
 }
@@ -45,7 +47,8 @@ def replay(vec: str, behaviours, tag: str, versions=None, timeout=900):
     d.mkdir(parents=True, exist_ok=True)
     v = VECTORS[vec]
     bpath = d / f"{tag}_{vec}_beh.json"
-    bpath.write_text(json.dumps({"config": {"mods": v["mods"], "hasB": v["hasB"], "flavour": v["flavour"], "imp": v["imp"]},
+    bpath.write_text(json.dumps({"config": {"mods": v["mods"], "hasB": v["hasB"], "flavour": v["flavour"], "imp": v["imp"],
+                                            "alias": bool(v.get("alias"))},
                                  "behaviours": behaviours}))
     interps = available_interpreters(versions or ("3.12", "3.11", "3.10", "3.9"))
 
